@@ -216,9 +216,11 @@ class replace_op(base_op_state):
         l = plan.state.fill_slotting(self.pkg, force=self.force)
         if l:
             # revert... limiter.
-            l2 = plan.state.fill_slotting(old)
+            # the old package may itself sit under a limiter (forced in, or
+            # blocked later); it still has to go back where it was.
+            l2 = plan.state.fill_slotting(old, force=force_old)
             plan.backtrack(revert_point)
-            assert not l2
+            assert force_old or not l2
             return l
 
         # wipe olds blockers.
